@@ -968,28 +968,52 @@ func g10Discovery(r *Repo, rep *Report) {
 	// and names resolved into the derived file are queued for regeneration
 	visit := r.lookup("derive.(*finder).Visit")
 	if visit != nil {
-		// inside the `filename == derivedFilename` branch the call is appended to a list of the finder
-		queued := nodeHas(visit.Decl, func(n ast.Node) bool {
-			ifs, ok := n.(*ast.IfStmt)
-			if !ok || !nodeHas(ifs.Cond, func(m ast.Node) bool {
-				id, ok := m.(*ast.Ident)
-				return ok && id.Name == "derivedFilename"
-			}) {
+		// on every path from the "is the derived file" outcome of the comparison with derivedFilename to a return, the call
+		// is appended to a list of the finder (must-pass-through on the control-flow graph)
+		isQueue := func(n ast.Node) bool {
+			as, ok := n.(*ast.AssignStmt)
+			if !ok || len(as.Lhs) != 1 || len(as.Rhs) != 1 {
 				return false
 			}
-			return nodeHas(ifs.Body, func(m ast.Node) bool {
-				as, ok := m.(*ast.AssignStmt)
-				if !ok || len(as.Lhs) != 1 || len(as.Rhs) != 1 {
-					return false
+			c, ok := as.Rhs[0].(*ast.CallExpr)
+			if !ok || exprStr(c.Fun) != "append" || len(c.Args) != 2 {
+				return false
+			}
+			_, isSel := as.Lhs[0].(*ast.SelectorExpr)
+			return isSel && exprStr(c.Args[0]) == exprStr(as.Lhs[0])
+		}
+		queued := false
+		vg := newGraph(visit.Decl.Body, mayReturnFn(info))
+		for _, b := range vg.Blocks {
+			if len(b.Succs) != 2 || len(b.Nodes) == 0 {
+				continue
+			}
+			cond, ok := b.Nodes[len(b.Nodes)-1].(ast.Expr)
+			if !ok {
+				continue
+			}
+			neg, isCmp := isDerivedCmp(cond)
+			if !isCmp {
+				continue
+			}
+			derivedSucc := b.Succs[0]
+			if neg {
+				derivedSucc = b.Succs[1]
+			}
+			reach := vg.reachable([]*cfg.Block{derivedSucc}, func(x *cfg.Block) bool { return blockHas(x, isQueue) })
+			escapes := false
+			for x := range reach {
+				if len(x.Succs) == 0 {
+					escapes = true // a return (or the end of the function) without having queued the call
 				}
-				c, ok := as.Rhs[0].(*ast.CallExpr)
-				if !ok || exprStr(c.Fun) != "append" || len(c.Args) != 2 {
-					return false
-				}
-				_, isSel := as.Lhs[0].(*ast.SelectorExpr)
-				return isSel && exprStr(c.Args[0]) == exprStr(as.Lhs[0])
-			})
-		})
+			}
+			if blockHas(derivedSucc, isQueue) {
+				escapes = false
+			}
+			if !escapes {
+				queued = true
+			}
+		}
 		if queued {
 			rep.pass("G10")
 		} else {
